@@ -13,7 +13,7 @@ def run(patch, pids, keep=False, quiet=False):
         with open("/tmp/pfz-worktree.lock", "w") as lk:
             fcntl.flock(lk, fcntl.LOCK_EX)
             for attempt in range(5):
-                r0 = subprocess.run(["git", "-C", "/repo", "worktree", "add", "--detach", "-f", d + "/repo", "HEAD"], capture_output=True, text=True)
+                r0 = subprocess.run(["git", "-C", "/repo", "worktree", "add", "--detach", "-f", d + "/repo", os.environ.get("PFZ_BASE", "HEAD")], capture_output=True, text=True)
                 if r0.returncode == 0:
                     break
                 time.sleep(1 + attempt)
